@@ -112,8 +112,15 @@ def check_run(chk, cfg, mode, lines, keep):
         r1 = smcrun.run_smc({**cfg, "checkpoint_every": 2}, fault_at=k, record_checkpoints=True)
         if r1["status"] == "fault" and r1["ckpts"]:
             src = r1["ckpts"][-1]["state"] if route == "dict" else r1["ckpts"][-1]["bytes"]
-            r5 = smcrun.resume_smc({**cfg, "checkpoint_every": 2}, src, record_checkpoints=True)
+            # the resumed call restores the population from the checkpoint; `n_samples` of the resumed call (the top-level
+            # default is 1000) is not the size of that population and must not enter any recorded quantity
+            n_res = res["cfg"]["n_samples"] if route == "bytes" else 3 * res["cfg"]["n_samples"] + 1
+            r5 = smcrun.resume_smc({**cfg, "checkpoint_every": 2, "n_samples": n_res}, src, record_checkpoints=True)
             chk.count(f"paired:resumed_{route}")
+            if r5["status"] == "done" and float(r5["samples"].log_evidence) == z and float(r5["samples"].log_evidence_error) != ze:
+                chk.fail("estimate does not depend on checkpointing", case,
+                         f"fault at likelihood call {k}, resumed from the checkpoint {route} (n_samples={n_res} on the resumed call): "
+                         f"uncertainty {float(r5['samples'].log_evidence_error)!r} vs {ze!r}", {**sig, "clause": "resumed_error", "route": route})
             if r5["status"] != "done" or float(r5["samples"].log_evidence) != z:
                 chk.fail("estimate does not depend on checkpointing", case,
                          f"fault at likelihood call {k}, resumed from the checkpoint {route}: "
